@@ -1,5 +1,6 @@
 """Exhaustive truth-table enumeration of a combinational design against a
-reference function (C07, C08, C14, parts of C06/C13).
+reference function (C07, C08, C14, parts of C06/C13).  Each vector is applied twice on the
+same live instance (ascending pass, then descending pass).
 
 build(desc) -> (hw, ins, outs)   ins/outs: ordered lists of (name, wire); ins must be undriven wires
 ref(desc, xd) -> None            : input vector outside the documented domain (skipped, counted)
@@ -53,11 +54,16 @@ def run_comb(desc, build, ref, prop, alphabets=None, max_viol=3, use_clk=False):
     viols = []
     wbad = []
     sample = None
-    for x in enumerate_vectors(ins, alphabets):
+    prev = None
+    # every vector is applied twice on the same instance: in enumeration order and then in reverse order, so that each
+    # value is also reached from a larger one (outputs must not depend on what the instance computed before)
+    vecs = list(enumerate_vectors(ins, alphabets))
+    for k, x in enumerate(itertools.chain(vecs, reversed(vecs))):
+        second = k >= len(vecs)
         xd = dict(zip(names, x))
         exp = ref(desc, xd)
         if exp is None:
-            skipped += 1
+            skipped += 0 if second else 1
             continue
         for w, v in zip(iw, x):
             w.put(v)
@@ -68,14 +74,18 @@ def run_comb(desc, build, ref, prop, alphabets=None, max_viol=3, use_clk=False):
         evals += 1
         got = {n: w.get() for n, w in outs}
         outcomes.add(tuple(got.values()))
-        if any(v for v in exp.values() if v is not None):
+        if not second and any(v for v in exp.values() if v is not None):
             nontriv += 1
         if sample is None and any(exp.values()):
             sample = {'config': desc, 'inputs': xd, 'expected': exp, 'got': got}
         bad = [n for n in exp if exp[n] is not None and got.get(n) != exp[n]]
         if bad and len(viols) < max_viol:
+            # the replay applies the vector evaluated just before as well (the instance is not fresh)
             viols.append({'sig': '%s:%s:%s' % (prop, cfgname(desc), bad[0]), 'shard': desc,
-                          'trace': [list(x)], 'detail': {'inputs': xd, 'expected': exp, 'got': got, 'wrong_outputs': bad}})
+                          'trace': ([list(prev)] if prev is not None else []) + [list(x)],
+                          'detail': {'inputs': xd, 'previous_inputs': dict(zip(names, prev)) if prev is not None else None,
+                                     'expected': exp, 'got': got, 'wrong_outputs': bad}})
+        prev = x
         b = core.check_widths(wires)
         if b and len(wbad) < 2:
             wbad.append({'inputs': xd, 'bad': b})
@@ -89,11 +99,11 @@ def replay_comb(v, build, ref):
     d = v['shard']
     hw, ins, outs = build(d)
     sim = hw.getSimulator()
-    x = v['trace'][0]
-    xd = dict(zip([n for n, _ in ins], x))
-    for (n, w), val in zip(ins, x):
-        w.put(val)
-    sim.propagateAll()
+    for x in v['trace']:
+        xd = dict(zip([n for n, _ in ins], x))
+        for (n, w), val in zip(ins, x):
+            w.put(val)
+        sim.propagateAll()
     got = {n: w.get() for n, w in outs}
     exp = ref(d, xd)
     bad = [n for n in (exp or {}) if exp[n] is not None and got.get(n) != exp[n]]
